@@ -17,6 +17,8 @@ from __future__ import absolute_import
 from __future__ import division
 from __future__ import print_function
 
+import numbers
+
 import six
 
 
@@ -240,3 +242,17 @@ def count_non_zeros(*iterables):
     if iterable is not None:
       result += sum(1 for element in iterable if element != 0)
   return result
+
+
+def verify_units(units):
+  """Verifies the `units` hyperparameter of a layer.
+
+  Args:
+    units: Output dimension of the layer.
+
+  Raises:
+    ValueError: If `units` is not an integer or is less than 1.
+  """
+  if (isinstance(units, bool) or not isinstance(units, numbers.Integral) or
+      units < 1):
+    raise ValueError("'units' must be a positive integer. Given: %s" % (units,))
